@@ -104,7 +104,7 @@ package types
 //@   modifies lastigas
 
 //@ func (h ITrxHandler_TrxAcctHandler) ExecuteTrx(ctx)
-//@   requires wf_ctx(ctx) && amounts_fit(ctx)
+//@   requires wf_ctx(ctx)
 //@   requires ctx.Exec ==> sig_ok(ctx.Tx, ctx.ChainID)                                                      [C03]
 //@   requires ctx.Sender.Nonce == ctx.Tx.Nonce                                                              [C04]
 //@   modifies everything
@@ -122,7 +122,6 @@ package types
 //@ func (h ITrxHandler_TrxEVMHandler) ExecuteTrx(ctx)
 //@   requires wf_ctx(ctx)
 //@   requires ctx.Tx.Type == 6 || (ctx.Tx.Type == 1 && ctx.Receiver.Code != nil)
-//@   requires amounts_fit(ctx)
 //@   requires ctx.Exec ==> sig_ok(ctx.Tx, ctx.ChainID)                                                      [C03]
 //@   requires ctx.Sender.Nonce == ctx.Tx.Nonce                                                              [C04]
 //@   modifies everything
